@@ -74,6 +74,11 @@ func genFunction(prog *ssa.Program, cs *Contracts, fn *ssa.Function, fc *FuncCon
 	st0 := &State{reach: tTrue, heaps: map[string]T{}, cells: map[string]Val{}}
 	st0.alloc = c.fresh("alloc0", SInt)
 	c.emit(fmt.Sprintf("(assert (>= %s 1))", st0.alloc.S))
+	if c.locMode {
+		// the storage of an array that exists at entry is an object that exists at entry
+		c.locDecls()
+		c.emit(fmt.Sprintf("(assert (forall ((q_x_0 Int)) (! (=> (and (< 0 q_x_0) (< q_x_0 %s)) (and (< 0 (nd_root q_x_0)) (< (nd_root q_x_0) %s))) :pattern ((nd_root q_x_0)))))", st0.alloc.S, st0.alloc.S))
+	}
 	names := paramNames(fn)
 	if len(fc.Params) > 0 {
 		if len(fc.Params) != len(fn.Params) {
